@@ -26,15 +26,16 @@ def episode_for(project, rng, n_rules=10):
         mpaths.append(rng.choice(subs))
     for mp in mpaths:
         ext = rng.random() < 0.25
-        # level limit x exclusion: an entry below mp that no remaining file mentions (an import of an excluded module
-        # by a remaining file is outside the input language, DESIGN section 14, O1)
+        # level limit x exclusion
         excl = None
         entries = [d for d in project["dirs"] if len(d) > len(mp) and d[:len(mp)] == mp] + \
                   [f["name"] for f in project["files"] if f["name"][:len(mp)] == mp]
         rng.shuffle(entries)
         for x in entries[:6]:
             outside = [st for st in project["stmts"] if st["file"][:len(x)] != x]
-            if rng.random() < 0.35 and not any(x[-1] in st["module"] or x[-1] in st["names"] for st in outside):
+            # (an excluded module that a remaining file still imports - generated code, say - contributes no import
+            # under any level limit either: no guard on who mentions x)
+            if rng.random() < 0.35:
                 excl = {"kind": "glob", "patterns": [sc.glob_shapes(project, x, rng)["*/text"]]}
                 break
         kw = {"excl": excl} if excl else {}
